@@ -18,6 +18,24 @@ CLAIMS = {
             "every state; a corrupted trace must be rejected (negative control).",
             "Valid histories only; small integer atoms (no int64 overflow); float tolerance 1e-9 rel. Trusted: harness value mapping, TLC.",
             "TLA+ spec + TLC bounded-exhaustive history export replayed on real aggregates + TLC trace validation", "DESIGN.md 6/C14"),
+    "C16": ("model_checking",
+            "GroupBy.tla models CustomTriggerGroupBy (event-time buffer, per-key aggregates, previouslySent, Triggers.tla state machines) and "
+            "SimpleGroupBy; TLC checks, for 10 trigger configurations and every valid watermarked input changelog up to MaxLen (late and zero-time "
+            "records included), that the consolidated output at end of stream equals the batch GROUP BY (GbBatch). Every exported script and seeded "
+            "random long scripts are run on the real nodes one message at a time; TLC validates the recorded traces against OpTrace.tla with the "
+            "same Layer-P monitor (PFail) evaluated after every event; Layer-I drift is counted (0 on the pinned tree).",
+            "Valid changelogs (never retract an absent row, also in event-time order). Aggregates count/sum over small ints. Trusted: scripted "
+            "source, value mapping, TLC.", "TLA+ spec + TLC bounded-exhaustive script export replayed on real group-by nodes + TLC trace validation",
+            "DESIGN.md 6/C16"),
+    "C17": ("model_checking",
+            "Triggers.tla: Layer-I state machines of Counting/Watermark/EndOfStream/Multi triggers stay within the Layer-P bounds Must <= polled <= May "
+            "for every event history up to MaxLen x 9 configurations (TLC); every history is replayed on the real execution.Trigger objects and the "
+            "recorded Poll results validated by TLC (TriggersTrace.tla), plus random long histories. Node level: GroupBy.tla clauses C17Watermark (a "
+            "forwarded watermark W is backed by the current result of every key at or below W; no key beyond W without COUNTING) and C17Counting "
+            "(emission exactly at every n-th record) are evaluated by TLC on traces of the real CustomTriggerGroupBy for exhaustive small and random scripts.",
+            "Calling protocol of the group-by (one Poll per trigger event). Counting clause checked on zero-event-time streams (where the trigger sees "
+            "records on arrival). Trusted: harness drivers, TLC.", "TLA+ spec + TLC history export replayed on real triggers/group-by + TLC trace validation",
+            "DESIGN.md 6/C17"),
 }
 
 NA_DEFAULT = "check not built yet (work in progress; will be claimed once its TLA+ spec and conformance harness are committed)"
